@@ -692,9 +692,14 @@ Definition oob (i : Z) (n : nat) : Prop := ~ (0 <= i < Z.of_nat n)%Z.
 Lemma oob_in_range i n : oob i n -> in_range i n = false.
 Proof. unfold oob. intros H. destruct (in_range i n) eqn:E; auto. apply in_range_spec in E. contradiction. Qed.
 
-(* the operation carries an index that lies outside its range (index n included) *)
+(* the operation carries an index that lies outside its range (index n included).  The 16
+   indexed accessors of vnadata.h / vnadata(3): get/set_frequency, get/set_cell, get/set_matrix,
+   get_to_vector, set_from_vector, get/set_z0, get/set_fz0, get/set_fz0_vector (14 with an
+   explicit index argument) and get_fmin / get_fmax, which address the frequencies 0 and
+   frequencies-1: outside [0, frequencies) exactly when the object has no frequencies. *)
 Definition bad_index (d : vd) (o : op V) : Prop :=
   match o with
+  | OGetFmin _ | OGetFmax _ => freqs V d = 0
   | OGetFreq _ i | OSetFreq _ i _ | OGetMatrix _ i | OSetMatrix _ i _ | OGetFz0Vec _ i | OSetFz0Vec _ i _ =>
       oob i (freqs V d)
   | OGetCell _ f r c | OSetCell _ f r c _ => oob f (freqs V d) \/ oob r (rows V d) \/ oob c (cols V d)
@@ -708,8 +713,9 @@ Lemma index_refused d o : bad_index d o -> stepf d o = (d, fail V).
 Proof.
   destruct o; cbn [bad_index DataModel.step]; try contradiction; intros H;
   unfold get_frequency, set_frequency, get_matrix, set_matrix, get_fz0_vector, set_fz0_vector,
-         get_cell, set_cell, get_to_vector, set_from_vector, get_z0, set_z0, get_fz0, set_fz0, port_ok;
-  cbn [q_d4 fixed];
+         get_cell, set_cell, get_to_vector, set_from_vector, get_z0, set_z0, get_fz0, set_fz0, port_ok,
+         get_fmin, get_fmax;
+  cbn [q_d4 fixed]; try (rewrite H; reflexivity);
   repeat match goal with
   | H : _ \/ _ |- _ => destruct H
   | H : oob _ _ |- _ => apply oob_in_range in H
@@ -718,6 +724,49 @@ Proof.
   | |- context [if negb (in_range ?i ?n) then _ else _] =>
       destruct (in_range i n) eqn:?; cbn [negb]; try congruence; try reflexivity
   end.
+Qed.
+
+(* ---------------------------------------------------------------- caller-supplied vectors *)
+Notation stepc := (DataModel.step_chk V vzero vdef fixed).
+
+Lemma step_chk_inv d o : Inv d -> Inv (fst (stepc d o)).
+Proof.
+  intros HI. unfold step_chk. destruct (short_vector V d o); [exact HI|apply step_inv; exact HI].
+Qed.
+
+(* with the caller's buffers as checked memories: on a state satisfying the invariant an
+   operation faults exactly when it reads past the end of a vector supplied by the caller *)
+Lemma step_chk_fault_iff d o :
+  Inv d -> (o_ret V (snd (stepc d o)) = RFault <-> short_vector V d o = true).
+Proof.
+  intros HI. unfold step_chk. destruct (short_vector V d o) eqn:E.
+  - split; reflexivity.
+  - split; [intros H; exfalso; exact (step_no_fault d o HI H)|discriminate].
+Qed.
+
+Lemma step_chk_no_fault d o : Inv d -> short_vector V d o = false -> o_ret V (snd (stepc d o)) <> RFault.
+Proof. intros HI E H. apply (step_chk_fault_iff d o HI) in H. congruence. Qed.
+
+(* an index is tested before the caller's vector is read *)
+Lemma bad_index_not_short d o : bad_index d o -> short_vector V d o = false.
+Proof.
+  destruct o; cbn [bad_index short_vector]; try contradiction; try reflexivity; intros H;
+  repeat match goal with
+  | H : _ \/ _ |- _ => destruct H
+  | H : oob _ _ |- _ => apply oob_in_range in H; rewrite H
+  end; cbn [andb]; try reflexivity.
+  all: destruct (in_range r (rows V d)); reflexivity.
+Qed.
+
+Lemma index_refused_chk d o : bad_index d o -> stepc d o = (d, fail V).
+Proof.
+  intros H. unfold step_chk. rewrite (bad_index_not_short d o H). apply index_refused. exact H.
+Qed.
+
+Lemma run_chk_inv d l : Inv d -> Inv (run_chk V vzero vdef fixed d l).
+Proof.
+  revert d. induction l as [|o l IH]; intros d HI; [exact HI|].
+  cbn [run_chk fold_left]. apply IH. apply step_chk_inv. exact HI.
 Qed.
 
 (* ---------------------------------------------------------------- resize presents initial values *)
@@ -851,9 +900,43 @@ Proof.
   apply index_refused. cbv; intros [_ H]; discriminate H.
 Qed.
 
+(* a history that grows, fills, switches to per-frequency impedances, shrinks every dimension and
+   regrows every dimension beyond its former size: the resulting state satisfies the invariant
+   (instance of inv_reachable) and is not trivial *)
+Definition example_history : list (op V) :=
+  [OInit V 1 2 2 2; OAddFreq V 1; OSetMatrix V 0 [vdef; vdef; vdef; vdef]; OSetZ0Vec V [vzero; vzero];
+   OSetFz0 V 2 1 vzero; OResize V 0 1 1 1; OResize V 0 2 3 4; OSetCell V 3 1 2 vdef].
+
 Example inv_example :
-  Inv V vzero vdef (runq fixed [OInit V 1 1 1 0; OAddFreq V 1; OSetZ0 V 0 vzero; OSetFz0 V 0 0 vzero;
-                                OResize V 0 2 3 4; OSetCell V 3 1 2 vdef]).
-Proof. apply inv_reachable. eexists; reflexivity. Qed.
+  let d := runq fixed example_history in
+  Inv V vzero vdef d /\
+  (rows V d, cols V d, freqs V d) = (2, 3, 4) /\ per_f V d = true /\
+  (p_alloc V d, f_alloc V d, m_alloc V d) = (3, 50, 6) /\
+  (* shrunk in between: *)
+  (let e := runq fixed (firstn 6 example_history) in (rows V e, cols V e, freqs V e) = (1, 1, 1)) /\
+  dat V d 3 5 = vdef /\ dat V d 0 0 = vdef /\ dat V d 0 1 = vzero /\ z0vv V d 0 0 = vzero /\ z0vv V d 0 1 = vdef.
+Proof.
+  cbv zeta. split; [apply inv_reachable; eexists; reflexivity|]. repeat split; reflexivity.
+Qed.
+
+(* the hypotheses of the index theorem for the two accessors without an explicit index *)
+Example fmin_refused_example :
+  let d := runq fixed [OInit V 1 2 2 0] in
+  bad_index V d (OGetFmin V) /\ step_chk V vzero vdef fixed d (OGetFmin V) = (d, fail V) /\
+  bad_index V d (OGetFmax V) /\ step_chk V vzero vdef fixed d (OGetFmax V) = (d, fail V).
+Proof. cbv zeta. repeat split; reflexivity. Qed.
+
+(* a caller's vector that is too short: [OInit 1 2 2 1; OSetMatrix 0 [v]] reads 4 values from a
+   buffer of 1; the unchecked `step` quietly completes it with zeros *)
+Example short_vector_example :
+  let d := runq fixed [OInit V 1 2 2 1] in
+  Inv V vzero vdef d /\ short_vector V d (OSetMatrix V 0 [vdef]) = true /\
+  o_ret V (snd (step_chk V vzero vdef fixed d (OSetMatrix V 0 [vdef]))) = RFault /\
+  o_ret V (snd (step V vzero vdef fixed d (OSetMatrix V 0 [vdef]))) = ROk /\
+  short_vector V d (OSetMatrix V 0 [vdef; vzero; vzero; vdef]) = false /\
+  o_ret V (snd (step_chk V vzero vdef fixed d (OSetMatrix V 0 [vdef; vzero; vzero; vdef]))) = ROk.
+Proof.
+  cbv zeta. split; [apply inv_reachable; eexists; reflexivity|]. repeat split; reflexivity.
+Qed.
 
 End AsFound.
